@@ -14,8 +14,10 @@ import (
 // correspondent PUBACK is received.
 type RetryTransaction struct {
 	*TransactionBase
-	retryDelay    time.Duration
-	retryCount    uint
+	retryDelay time.Duration
+	retryCount uint
+	// retryNumMutex guards retryNum, timer, State and Data and serializes
+	// Success, Fail, Proceed and the retry timer callback.
 	retryNumMutex sync.Mutex
 	retryNum      uint
 	timer         *time.Timer
@@ -48,7 +50,9 @@ func NewRetryTransaction(ctx context.Context, retryDelay time.Duration, retryCou
 	go func() {
 		select {
 		case <-ctx.Done():
+			t.retryNumMutex.Lock()
 			t.stopTimer()
+			t.retryNumMutex.Unlock()
 		case <-t.Done():
 			return
 		}
@@ -58,14 +62,29 @@ func NewRetryTransaction(ctx context.Context, retryDelay time.Duration, retryCou
 
 // Transaction.Success() implementation.
 func (t *RetryTransaction) Success() {
+	t.retryNumMutex.Lock()
+	defer t.retryNumMutex.Unlock()
+
 	t.stopTimer()
 	t.TransactionBase.Success()
 }
 
 // Transaction.Fail() implementation.
 func (t *RetryTransaction) Fail(e error) {
+	t.retryNumMutex.Lock()
+	defer t.retryNumMutex.Unlock()
+
 	t.stopTimer()
 	t.TransactionBase.Fail(e)
+}
+
+func (t *RetryTransaction) isDone() bool {
+	select {
+	case <-t.Done():
+		return true
+	default:
+		return false
+	}
 }
 
 // StatefulTransaction.Proceed() implementation.
@@ -73,18 +92,24 @@ func (t *RetryTransaction) Proceed(state interface{}, data interface{}) {
 	t.retryNumMutex.Lock()
 	defer t.retryNumMutex.Unlock()
 
+	// A finished transaction stays finished.
+	if t.isDone() {
+		return
+	}
 	t.State = state
 	t.Data = data
 	t.retryNum = 0
 	t.restartTimer()
 }
 
+// You must acquire t.retryNumMutex before calling this function!
 func (t *RetryTransaction) stopTimer() {
 	if t.timer != nil {
 		t.timer.Stop()
 	}
 }
 
+// You must acquire t.retryNumMutex before calling this function!
 func (t *RetryTransaction) restartTimer() {
 	t.stopTimer()
 	t.timer = time.AfterFunc(t.retryDelay, t.timeout)
@@ -94,13 +119,21 @@ func (t *RetryTransaction) timeout() {
 	t.retryNumMutex.Lock()
 	defer t.retryNumMutex.Unlock()
 
+	// The timer could have fired just before the transaction was finished
+	// (or before the timer was restarted) => no retries after that.
+	if t.isDone() {
+		return
+	}
 	t.retryNum++
 	if t.retryNum > t.retryCount {
-		t.Fail(ErrNoMoreRetries)
+		t.stopTimer()
+		t.TransactionBase.Fail(ErrNoMoreRetries)
 		return
 	}
 	if err := t.retryCallback(t.Data); err != nil {
-		t.Fail(err)
+		t.stopTimer()
+		t.TransactionBase.Fail(err)
+		return
 	}
 	t.restartTimer()
 }
